@@ -286,7 +286,7 @@ func piecewiseEngine(args []string) error {
 				s.mismatch(map[string]interface{}{"kind": "error-inside-table", "xs": c.P.Xs, "ys": c.P.Ys, "q": label, "detail": e.Error()})
 				return
 			}
-			if !nearly(y, want[0]/want[1]) {
+			if !nearly(y, want[0]/want[1], 0) {
 				s.mismatch(map[string]interface{}{"kind": "value", "xs": c.P.Xs, "ys": c.P.Ys, "q": label,
 					"detail": fmt.Sprintf("Piecewise(%s) = %v, exact %v/%v", label, y, want[0], want[1])})
 			}
